@@ -122,6 +122,8 @@ pub struct JobResult {
     pub monitor: Vec<String>,
     pub monitor_states: u64,
     pub monitor_checks: u64,
+    /// "shard-N/label" -> digest of the segment directory when it was first seen published
+    pub manifests: BTreeMap<String, String>,
     pub live_segments: Vec<Vec<String>>,
     pub entropy_requests: u64,
     pub writable_maps: u64,
@@ -349,6 +351,7 @@ pub fn run_job(job: Job) -> JobResult {
         result.monitor = m.violations.clone();
         result.monitor_states = m.states.len() as u64;
         result.monitor_checks = m.checks;
+        result.manifests = m.ever.clone();
     }
     result.gates = std::mem::take(&mut gatectl.lock().unwrap().log);
     result.fs_events = interpose::FS_EVENTS.load(std::sync::atomic::Ordering::SeqCst);
